@@ -18,6 +18,8 @@ VERUS = {
     # float/src/root.rs Context::sqrt (+ must_panic variant: infinite / unlimited precision / negative)
     'float_sqrt': {'file': 'float_sqrt.rs', 'w32': False},
     'float_sqrt_panic': {'file': 'float_sqrt_panic.rs', 'w32': False},
+    # float/src/div.rs Context::{repr_div, div, inv}
+    'float_div': {'file': 'float_div.rs', 'w32': False},
 }
 
 _UND_MUL = ('Context::{mul, sqr, cubic}: operands longer than 2p (3p for cubic) digits are first rounded to 2p (3p) digits '
@@ -52,9 +54,15 @@ _UND_SQRT = ('Context::sqrt: proved (operand fits p digits) that the result is O
              'natively; directed modes compose correctly but are not proved there). UBig::sqrt_rem is a trusted stub '
              '(s*s + r == n, 0 <= r <= 2s). Operands longer than p digits (low part dropped into the tie test) not covered.')
 
+_UND_DIV = ('division: Context::{repr_div, div, inv} proved (div_post: mode-correct rounding of the exact quotient at a unit where '
+            'the truncated quotient has p or p+1 digits, Exact iff the division terminates, truthful flag) for a dividend that '
+            'fits p digits and a non-zero divisor; IBig::div_rem is a trusted stub (truncating division); digits_lb / digits_ub '
+            '(f32 estimates) enter through ASSUMED enclosures. Not covered: the FBig `/` operator forms and repr_rem (macro '
+            'arms), DivEuclid/RemEuclid, division by zero (panics inside dashu-int).')
+
 PROP_UNITS = {
-    'C03': {'verus': ['float_mul', 'float_add', 'float_add_ops', 'float_sqrt'], 'undecided': [_UND_MUL, _UND_ADD, _KNOWN_ADD, _UND_SQRT]},
+    'C03': {'verus': ['float_mul', 'float_add', 'float_add_ops', 'float_sqrt', 'float_div'], 'undecided': [_UND_MUL, _UND_ADD, _KNOWN_ADD, _UND_SQRT, _UND_DIV]},
     'C05': {'verus': ['float_cmp'], 'undecided': [_UND_CMP]},
     'C15': {'verus': ['float_mul', 'float_add_ops']},
-    'C16': {'verus': ['float_mul', 'float_mul_inf', 'float_add', 'float_add_ops', 'float_add_inf', 'float_cmp', 'float_sqrt', 'float_sqrt_panic']},
+    'C16': {'verus': ['float_mul', 'float_mul_inf', 'float_add', 'float_add_ops', 'float_add_inf', 'float_cmp', 'float_sqrt', 'float_sqrt_panic', 'float_div']},
 }
